@@ -411,7 +411,7 @@ Ltac pred_goal :=
   | |- ?a = ?a => reflexivity
   | |- _ => pred_hook
   end
-with pred_hook := fail.
+with pred_hook := ovr_hook.
 
 (* goal: [Inv B' (set f v s0)] from H : Inv B s0, where B' is B except possibly for the constraint on f *)
 Ltac upd_inv H :=
